@@ -160,6 +160,14 @@ def analyse(W: int, mf: int, res: Dict[str, Any], out: Outcome, want: str) -> Di
             if not replaced:
                 out.add("C17.c", f"slot {slot} died in tick {t} (pid {pid}) and was not replaced by the end of tick {t + 2}")
     if want == "C18":
+        # a SIGINT / SIGTERM that was delivered is never lost: the manager begins to shut down (signals its workers / returns) by the end of
+        # the next tick at the latest - whenever the signal arrived, also while the workers were still being started
+        sig_pos = next((pos for pos, e in enumerate(tr) if e[0] == "sig" and e[1] in ("INT", "TERM")), None)
+        if sig_pos is not None and res["status"] not in ("returned", "raised") and not kills:
+            ticks_after = sum(1 for e in tr[sig_pos:] if e[0] == "tick")
+            if ticks_after >= 3:
+                out.add("C18.c", f"{tr[sig_pos][1]} was delivered {'before the first tick (while the workers were being started)' if not any(e[0] == 'tick' for e in tr[:sig_pos]) else 'in tick ' + str(sum(1 for e in tr[:sig_pos] if e[0] == 'tick'))}"
+                                 f" but {ticks_after} ticks later the manager is still supervising: no worker signalled, no return (status={res['status']})")
         for (tk, slot), n in starts_in_tick.items():
             if n > 1 and tk > 0:
                 out.add("C18.b", f"tick {tk}: slot {slot} restarted {n} times within one tick")
@@ -242,7 +250,17 @@ def histories(max_ticks: int = 40) -> Any:
         "slow": st.one_of(st.just([]), st.lists(st.tuples(st.integers(0, 8), st.sampled_from([2.0, 8.0, 30.0])).map(list), max_size=4, unique_by=lambda x: x[0])),
         # the OS hands out process ids from a small cyclic range: a replacement can get the number a reaped worker had
         "pidpool": st.sampled_from([0, 0, W + 1, W + 2, 2 * W + 1]),
-    }))
+        # signals delivered at the k-th fake OS call BEFORE the first tick, i.e. while prepare_workers() is starting the processes
+        "boot": st.one_of(st.just([]), st.just([]), st.just([]), st.just([]),
+                          st.lists(st.tuples(st.integers(0, 3), st.sampled_from(["INT", "TERM", "HUP", "TERM"])).map(list), min_size=1, max_size=2)),
+    }).map(_put_boot))
+
+
+def _put_boot(c: Dict[str, Any]) -> Dict[str, Any]:
+    boot = c.pop("boot")
+    if boot and c["h"]:
+        c["h"] = [dict(c["h"][0], boot=boot)] + list(c["h"][1:])
+    return c
 
 
 def hosted_histories() -> Any:
@@ -251,7 +269,7 @@ def hosted_histories() -> Any:
 
 
 def has_mid(case: Dict[str, Any]) -> bool:
-    return any(t.get("mid") for t in case["h"])
+    return any(t.get("mid") or t.get("boot") for t in case["h"])
 
 
 def classify(case: Dict[str, Any], res: Dict[str, Any], an: Dict[str, Any]) -> List[str]:
